@@ -98,6 +98,9 @@ def _replace_UnionType_with_typing_Union(annotation):
         new_key_annotation = _replace_UnionType_with_typing_Union(key_annotation)
         new_value_annotation = _replace_UnionType_with_typing_Union(value_annotation)
         return dict[new_key_annotation, new_value_annotation]
+    if annotation is Ellipsis:
+        # The `...` of `tuple[int, ...]`.
+        return annotation
     if annotation in builtin_types:
         return annotation
     if inspect.isclass(annotation):
